@@ -1,11 +1,11 @@
 CONSTANTS
-  KeySeq <- K_ab
-  CKeySeq <- K_abx
+  KeySeq <- K_abcde
+  CKeySeq <- K_abcde
   HVals = {"1", "2"}
   CVals = {"1", "2", ""}
-  DVals = {"1", "2"}
+  DVals = {"1"}
   UVals = {"1"}
-  PrefixLen = 0
+  PrefixLen = 3
   MaxHosts = 3
   MaxSel = 2
   Defects = {}
